@@ -93,6 +93,9 @@ def _is_wildcard_candidate(
     while parts_second and parts_second[-1] == 0:
         del parts_second[-1]
 
+    if not parts_second:
+        return False
+
     # fill up first with zeros
     parts_first += [0] * (len(parts_second) - len(parts_first))
 
